@@ -29,6 +29,11 @@ func genLabelProg(t *rapid.T, mode int, org int64, withFar bool) Prog {
 	ser := 1
 	n := rapid.IntRange(2, 14).Draw(t, "nstmt")
 	nlabels := rapid.IntRange(1, 5).Draw(t, "nlabels")
+	// one program in a hundred is long: hundreds of statements and labels (about 1 ms per statement to assemble)
+	if withFar && rapid.IntRange(0, 99).Draw(t, "long") == 57 {
+		n = rapid.IntRange(300, 1200).Draw(t, "nstmtlong")
+		nlabels = rapid.IntRange(20, 300).Draw(t, "nlabelslong")
+	}
 	names := make([]string, nlabels)
 	for i := range names {
 		names[i] = genName(t, fmt.Sprintf("lname%d", i), used)
@@ -38,6 +43,7 @@ func genLabelProg(t *rapid.T, mode int, org int64, withFar bool) Prog {
 	for i := range pos {
 		pos[i] = rapid.IntRange(0, n).Draw(t, fmt.Sprintf("lpos%d", i))
 	}
+	var equNames []string // names defined as "name EQU $"
 	m16 := sem.ModeOf(mode) == 16
 	// one program in four changes the mode on the way (only where the caller decodes per statement)
 	switching := withFar && rapid.IntRange(0, 3).Draw(t, "switching") == 0
@@ -112,8 +118,41 @@ func genLabelProg(t *rapid.T, mode int, org int64, withFar bool) Prog {
 			v := rapid.SampledFrom([]int64{0, 1, 0x7f, 0x80, 0xff, 0x100, 0x7fff}).Draw(t, "equv")
 			p.Items = append(p.Items, Item{Kind: ItEqu, Name: nm, Text: renderImm(v, 1)},
 				Item{Kind: ItStmt, Text: fmt.Sprintf("MOV %s,%s", regsOf(16)[rapid.IntRange(0, 7).Draw(t, "er")], nm), Cls: "equ.use"})
+		case k == 10 && rapid.Bool().Draw(t, "equdollar"): // name EQU $ (a label by another spelling), used after its definition
+			nm := genName(t, "equdname", used)
+			equNames = append(equNames, nm)
+			p.Items = append(p.Items, Item{Kind: ItEqu, Name: nm, Text: "$"}, Item{Kind: ItMarker, Ser: ser, Name: nm})
+			ser++
+			if rapid.Bool().Draw(t, "equdgap") {
+				text, cls := genPlainStmt(t, mode, true)
+				p.Items = append(p.Items, Item{Kind: ItStmt, Text: text, Cls: cls})
+			}
+			reg := regsOf(16)[rapid.IntRange(0, 7).Draw(t, "er3")]
+			switch rapid.IntRange(0, 2).Draw(t, "equduse") {
+			case 0:
+				p.Items = append(p.Items, Item{Kind: ItMarker, Ser: ser}, Item{Kind: ItStmt, Text: fmt.Sprintf("MOV %s,%s", reg, nm), Cls: "equ.dollar", Ref: nm, RefAs: "mov16:" + reg, Ser: ser})
+			case 1:
+				p.Items = append(p.Items, Item{Kind: ItMarker, Ser: ser}, Item{Kind: ItStmt, Text: "DW " + nm, Cls: "equ.dollar", Ref: nm, RefAs: "dw", Ser: ser})
+			default:
+				p.Items = append(p.Items, Item{Kind: ItMarker, Ser: ser}, Item{Kind: ItStmt, Text: "DD " + nm, Cls: "equ.dollar", Ref: nm, RefAs: "dd", Ser: ser})
+			}
+			ser++
 		case k == 7 && withFar: // far jump
-			p.Items = append(p.Items, Item{Kind: ItStmt, Text: fmt.Sprintf("JMP DWORD %d:0x%x", rapid.SampledFrom([]int{8, 16, 0x28}).Draw(t, "sel"), rapid.SampledFrom([]int64{0, 0x1b, 0x280000}).Draw(t, "foff")), Cls: "farjmp"})
+			// with and without a size keyword (in 16-bit mode the offset then has 16 bits)
+			kw := rapid.SampledFrom([]string{"DWORD ", "DWORD ", "", "WORD "}).Draw(t, "farkw")
+			offs := []int64{0, 0x1b, 0x280000}
+			if kw != "DWORD " {
+				offs = []int64{0, 0x1b, 0x1234}
+			}
+			ftext := fmt.Sprintf("JMP %s%d:0x%x", kw, rapid.SampledFrom([]int{8, 16, 0x28}).Draw(t, "sel"), rapid.SampledFrom(offs).Draw(t, "foff"))
+			if !accepts(mode, ftext) {
+				ftext = "JMP DWORD 8:0x1b"
+			}
+			p.Items = append(p.Items, Item{Kind: ItStmt, Text: ftext, Cls: "farjmp"})
+		case k == 8 && rapid.Bool().Draw(t, "memref"): // the label as the address of a memory operand
+			mt := rapid.SampledFrom([]string{"MOV CX,[%s]", "MOV AX,[%s]", "MOV [%s],AL", "MOV [%s],DX", "ADD BYTE [%s],1", "CMP WORD [%s],0x1234", "PUSH WORD [%s]", "MOV EDX,[%s]", "MOV [%s],EAX", "SUB SI,[%s]", "MOV BYTE [%s],7"}).Draw(t, "memtmpl")
+			p.Items = append(p.Items, Item{Kind: ItMarker, Ser: ser}, Item{Kind: ItStmt, Text: fmt.Sprintf(mt, lab), Cls: "ref.mem", Ref: lab, RefAs: "mem", Ser: ser})
+			ser++
 		case k == 8: // LGDT [label]
 			p.Items = append(p.Items, Item{Kind: ItMarker, Ser: ser}, Item{Kind: ItStmt, Text: "LGDT [" + lab + "]", Cls: "ref.lgdt", Ref: lab, RefAs: "lgdt", Ser: ser})
 			ser++
@@ -129,7 +168,7 @@ func genLabelProg(t *rapid.T, mode int, org int64, withFar bool) Prog {
 	// trailing table
 	p.Items = append(p.Items, Item{Kind: ItMarker, Ser: ser, Name: "$table"})
 	ser++
-	for _, nm := range names {
+	for _, nm := range append(append([]string{}, names...), equNames...) {
 		p.Items = append(p.Items, Item{Kind: ItStmt, Text: "DD " + nm, Cls: "table", Ref: nm, RefAs: "table"})
 	}
 	p.Items = append(p.Items, Item{Kind: ItMarker, Ser: ser}, Item{Kind: ItStmt, Text: "DW $", Cls: "ref.dollar", RefAs: "dollar", Ser: ser})
@@ -324,6 +363,24 @@ func checkLabelProg(pid string, p *Prog) Verdict {
 			if target != want {
 				return fail("branch", classBeforeLabel(p, it.Ref), "%q at %#x lands on %#x, label %s is at %#x", it.Text, org+int64(o), target, it.Ref, want)
 			}
+		case it.RefAs == "mem":
+			o := offs[it.Ser] + 6
+			inst, err := x86asm.Decode(out[o:], mode)
+			if err != nil {
+				return fail("decode", "mem", "%q at %#x does not decode: %v", it.Text, o, err)
+			}
+			var me x86asm.Mem
+			found := false
+			for _, a := range inst.Args {
+				if m, ok := a.(x86asm.Mem); ok {
+					me, found = m, true
+				}
+			}
+			nrefs++
+			m := int64(1)<<uint(inst.AddrSize) - 1
+			if !found || me.Base != 0 || me.Index != 0 || me.Disp&m != want&m || sem.CanonOp(inst.Op.String()) != sem.CanonOp(strings.Fields(it.Text)[0]) {
+				return fail("label", classBeforeLabel(p, it.Ref), "label %s: %q decodes as %q, the labelled statement really starts at %#x", it.Ref, it.Text, x86asm.IntelSyntax(inst, 0, nil), want)
+			}
 		case it.RefAs == "lgdt":
 			o := offs[it.Ser] + 6
 			inst, err := x86asm.Decode(out[o:], mode)
@@ -362,16 +419,24 @@ func checkLabelProg(pid string, p *Prog) Verdict {
 		}
 	}
 	v.Class = fmt.Sprintf("mode%d", mode)
+	if switches {
+		v.Class += ",modeswitch"
+	}
+	if len(p.Items) > 300 {
+		v.Class += ",long"
+	}
 	for k := range cls {
 		st.Classes["label-after:"+k]++
 	}
-	v.Sample = map[string]any{"source": src, "bytes": len(out)}
+	if len(src) < 4000 {
+		v.Sample = map[string]any{"source": src, "bytes": len(out)}
+	}
 	return v
 }
 
 var propC03 = &Prop[Prog]{
 	ID:   "C03",
-	Rule: "programs of 2-14 statements from every size class (instructions incl. prefixes/SIB/disp32, DB/DW/DD, RESB, ALIGNB, EQU, INT 3/INT n, branches, LGDT, far JMP) with 1-5 labels at arbitrary positions, each followed by a unique marker; references before and after definition (MOV reg,label; DW/DD label; branches; LGDT [label]; trailing DD table; DW $); ORG from the quantifier's set; oracle: embedded value = origin + marker offset, output length = location counter - origin; non-trivial = accepted, a label with a statement before it, at least one reference; distinct by source text",
+	Rule: "programs of 2-14 statements (one in a hundred: 300-1200 statements with 20-300 labels; one in four with [BITS n] switches on the way) from every size class (instructions incl. prefixes/SIB/disp32, DB/DW/DD, RESB, ALIGNB, EQU, INT 3/INT n, branches, LGDT, far JMP) with 1-5 labels at arbitrary positions, each followed by a unique marker; references before and after definition (MOV reg,label; DW/DD label; branches; LGDT [label]; the label as the address of a memory operand of MOV/ADD/SUB/CMP/PUSH; trailing DD table; DW $), names defined as 'name EQU $' and used like labels after their definition; ORG from the quantifier's set; oracle: embedded value = origin + marker offset, output length = location counter - origin; non-trivial = accepted, a label with a statement before it, at least one reference; distinct by source text",
 	Gen: func(t *rapid.T) Prog {
 		mode := rapid.SampledFrom([]int{0, 16, 32}).Draw(t, "mode")
 		org := rapid.SampledFrom(orgSet).Draw(t, "org")
